@@ -51,5 +51,5 @@ Step ==
                       ELSE <<"ok", "">>
 
 TSpec == TInit /\ [][Step]_tvars
-Report == (verdict[1] # "ok" \/ l > Len(Tr)) => PrintT(<<"VERDICT", tid, l - 1, verdict[1], verdict[2]>>)
+Report == (verdict[1] # "ok" \/ l > Len(Tr)) => PrintT("VERDICT " \o ToString(<<tid, l - 1, verdict[1], verdict[2]>>))
 =============================================================================
